@@ -310,7 +310,7 @@ impl Sys {
         };
         let vleaf = (0..2).map(|_| (0..u).map(|_| rand32(&mut r)).collect()).collect();
         Sys { e, flavour: flavour.into(), mode: mode.into(), hk, u, r, verifier, dist, token, owner, receivers, vleaf, last_root: None, spread,
-              imap: (0..u).map(|k| if !spread || mode != "s" { k as u32 } else if mode == "s" { SPREAD_S[k % 16] + (k / 16) as u32 * 1000 }
+              imap: (0..u).map(|k| if !spread || mode != "s" { k as u32 } else if mode == "s" { SPREAD_S[k % 16].wrapping_add((k / 16) as u32 * 1000) }
                                    else { SPREAD_P[k % 16] + (k / 16) as u32 * 300 }).collect() }
     }
 
@@ -591,16 +591,23 @@ fn main() {
                 let (fl, mode) = combos[run % combos.len()];
                 // a few positional runs use trees of 130..136 leaves: positions (= claim indices) that differ in bit 7
                 let wide = mode == "p" && (run / combos.len()) % 3 == 2;
-                let uu = if wide { 136 } else { U };
+                // a few sorted-pair runs use chain-shaped trees of 33..40 leaves: honest proofs of 32 and more siblings
+                let deep = mode == "s" && (run / combos.len()) % 4 == 3;
+                let uu = if wide { 136 } else if deep { 40 } else { U };
                 let mut sys = Sys::new(fl, mode, uu, r.gen(), (run / combos.len()) % 2 == 1);
                 t.reset(sys.reset_event());
                 let styles: &[&str] = if mode == "s" { &STYLES_S } else { &STYLES_P };
-                let nmax = if wide { 136 } else { *pick(&mut r, &[4usize, 6, 9, 12]) };
+                let nmax = if wide { 136 } else if deep { 40 } else { *pick(&mut r, &[4usize, 6, 9, 12]) };
                 // state feedback: the tree whose root is installed, and the indices claimed so far
                 let mut cur: Option<(usize, String, i64)> = None;
                 let mut claimed: Vec<usize> = vec![];
                 for _ in 0..len {
-                    let fresh_tree = |r: &mut StdRng| (if wide { r.gen_range(130..=nmax) } else { r.gen_range(1..=nmax) }, pick(r, styles).to_string(), r.gen_range(0..2i64));
+                    let fresh_tree = |r: &mut StdRng| {
+                        if deep && r.gen_bool(0.7) {
+                            return (r.gen_range(33..=nmax), "chain".to_string(), r.gen_range(0..2i64));
+                        }
+                        (if wide { r.gen_range(130..=nmax) } else { r.gen_range(1..=nmax) }, pick(r, styles).to_string(), r.gen_range(0..2i64))
+                    };
                     let kind = if cur.is_none() {
                         *pick(&mut r, &["set_root", "set_root", "claim", "verify"])
                     } else {
@@ -631,7 +638,14 @@ fn main() {
                     };
                     let n = tr.0;
                     let unclaimed: Vec<usize> = (0..n).filter(|k| !claimed.contains(k)).collect();
-                    let pos = if kind == "claim" && !unclaimed.is_empty() && r.gen_bool(0.8) { *pick(&mut r, &unclaimed) } else { r.gen_range(0..n) };
+                    let pos = if deep && r.gen_bool(0.5) {
+                        // the two ends of the chain: the deepest and the shallowest leaves
+                        (*pick(&mut r, &[0usize, 1, n - 1, n.saturating_sub(2)])).min(n - 1)
+                    } else if kind == "claim" && !unclaimed.is_empty() && r.gen_bool(0.8) {
+                        *pick(&mut r, &unclaimed)
+                    } else {
+                        r.gen_range(0..n)
+                    };
                     let hs = sys.hs();
                     let plen = hs.proof(&tr.1, &sys.leaves(false, tr.2, n), pos).len();
                     let corr = if r.gen_bool(0.45) {
